@@ -92,7 +92,7 @@ func c04Fixture() *hx.Node {
 	copy(k3yDec[0xF70:], wmDec)
 	root := hx.Dir("", ps3iso,
 		hx.RawFile("k3y.iso", k3y), hx.RawFile("k3y-exact.bin", k3y[:0x1070]), hx.RawFile("k3y-1short.bin", k3y[:0x106F]), hx.RawFile("k3y-badtable.iso", k3yBadTable), hx.RawFile("k3y-dec.iso", k3yDec),
-		&hx.Node{Name: "big.bin", Kind: "file", Size: 64 << 20, Seed: 5, Sparse: true},
+		&hx.Node{Name: "big.bin", Kind: "file", Size: 16 << 20, Seed: 5, Sparse: true},
 		&hx.Node{Name: "psx.bin", Kind: "file", Size: 3 << 20, Seed: 6, Sparse: true, Patches: []hx.Patch{{Off: 24 + 16*2352 + 8, Data: "PLAYSTATION "}}},
 		&hx.Node{Name: "psx-sig-at-end.bin", Kind: "file", Size: 0x200000, Seed: 7, Sparse: true},
 		hx.File("small.txt", 100, 8), hx.File("zero", 0, 9),
@@ -120,15 +120,56 @@ func c04Fixture() *hx.Node {
 	return root
 }
 
+// c04Paths: the objects of the fixture a hostile client would aim at. The 600 entries of /wide and the
+// 40 levels of /deep are represented by a few of them, so that images, key files and game directories
+// are not diluted.
 var c04Paths = func() []string {
 	var ps []string
 	c04Fixture().Walk(func(rel string, n *hx.Node) {
-		if strings.Count(rel, "/") <= 3 || strings.HasPrefix(rel, "deep") && strings.Count(rel, "/")%10 == 0 {
+		switch {
+		case rel == "":
+			ps = append(ps, "/")
+		case strings.HasPrefix(rel, "wide/"):
+			if strings.HasSuffix(rel, "0000") || strings.Contains(rel, "-0599-") {
+				ps = append(ps, "/"+rel)
+			}
+		case strings.HasPrefix(rel, "deep/"):
+			if c := strings.Count(rel, "/"); (c == 1 || c == 20 || c == 40) && n.Kind == "dir" {
+				ps = append(ps, "/"+rel)
+			}
+		case strings.Count(rel, "/") <= 2:
 			ps = append(ps, "/"+rel)
 		}
 	})
 	return ps
 }()
+
+// c04Images: the objects behind which the parsers and the read arithmetic sit.
+var c04Images = func() []string {
+	var ps []string
+	for _, p := range c04Paths {
+		switch {
+		case strings.HasSuffix(p, ".iso"), strings.HasSuffix(p, ".bin") && !strings.Contains(p, "EBOOT"):
+			ps = append(ps, p)
+		case strings.HasPrefix(p, "/GAME_") && strings.Count(p, "/") == 1:
+			ps = append(ps, "/***PS3***"+p, "/***DVD***"+p)
+		}
+	}
+	return ps
+}()
+
+// genC04ImageBlock: open one of the image-like objects and read it a few times with edge geometries.
+func genC04ImageBlock(t *rapid.T, l string) []hx.Req {
+	reqs := []hx.Req{{Op: "OPEN_FILE", Path: hx.BStr(rapid.SampledFrom(c04Images).Draw(t, l+"-img"))}}
+	n := rapid.IntRange(1, 4).Draw(t, l+"-nreads")
+	for i := 0; i < n; i++ {
+		li := fmt.Sprintf("%s-b%d", l, i)
+		off := uint64(rapid.SampledFrom([]int{0, 1, 23, 24, 2047, 2048, 2049, 0xF6F, 0xF70, 0xF71, 0xF80, 0xFFF, 0x1000, 0x106F, 0x1070, 0x1071, 6143, 6144, 6145, 8191, 16 * 2048, 32767, 32768, 65535, 65536}).Draw(t, li+"-off"))
+		nn := uint32(rapid.SampledFrom([]int{1, 15, 16, 17, 255, 256, 257, 2047, 2048, 2049, 4096, 5000, 65535, 65536, 70000, 0x7fffffff}).Draw(t, li+"-n"))
+		reqs = append(reqs, hx.Req{Op: "READ_FILE", N: nn, Off: off})
+	}
+	return reqs
+}
 
 func genC04Req(t *rapid.T, l string) hx.Req {
 	huge32 := []uint32{0, 1, 2047, 2048, 2049, 65535, 65536, 0x7fffffff, 0x80000000, 0xfffffffe, 0xffffffff}
@@ -195,9 +236,30 @@ func genC04(t *rapid.T) c04Case {
 	ns := rapid.SampledFrom([]int{1, 1, 1, 2, 3}).Draw(t, "nsess")
 	for s := 0; s < ns; s++ {
 		n := rapid.IntRange(1, 25).Draw(t, fmt.Sprintf("s%d-n", s))
+		// "deep" sessions avoid requests that end the connection (unknown opcodes, unsatisfiable critical
+		// reads, unseekable offsets), so that every request of the history is really processed; "wild" ones do not care
+		deep := rapid.IntRange(0, 9).Draw(t, fmt.Sprintf("s%d-deep", s)) < 6
 		var reqs []hx.Req
 		for i := 0; i < n; i++ {
-			reqs = append(reqs, genC04Req(t, fmt.Sprintf("s%d-r%d", s, i)))
+			if rapid.IntRange(0, 3).Draw(t, fmt.Sprintf("s%d-r%d-blk", s, i)) == 0 {
+				reqs = append(reqs, genC04ImageBlock(t, fmt.Sprintf("s%d-r%d", s, i))...)
+				continue
+			}
+			r := genC04Req(t, fmt.Sprintf("s%d-r%d", s, i))
+			if deep && i < n-1 {
+				switch r.Op {
+				case "RAW", "READ_CD":
+					r = hx.Req{Op: "STAT", Path: hx.BStr(rapid.SampledFrom(c04Paths).Draw(t, fmt.Sprintf("s%d-r%d-st", s, i)))}
+				case "READ_CRIT":
+					r.Op = "READ_FILE"
+					fallthrough
+				case "READ_FILE":
+					if r.Off >= 1<<40 {
+						r.Off = uint64(rapid.SampledFrom([]int{0, 1, 0xF6F, 0xF70, 0xF80, 0x1000, 0x106F, 0x1070, 2047, 2049, 4095, 6143, 6145}).Draw(t, fmt.Sprintf("s%d-r%d-o", s, i)))
+					}
+				}
+			}
+			reqs = append(reqs, r)
 		}
 		c.Sessions = append(c.Sessions, reqs)
 	}
